@@ -20,6 +20,9 @@ def mk_subscript(r, kind):
         while len(body) < n:
             body.append(0xAC)
         return bytes(body[:n])
+    if kind == "after_return":
+        # data-carrier style prefixes followed by ordinary script with separators
+        return r.choice([b"\x6a", b"\x00\x6a", b"\x6a\x6a", b"\x51\x6a"]) + mk_subscript(r, "sep")
     if kind == "p2pkh":
         return b"\x76\xa9\x14" + gen.rbytes(r, 20) + b"\x88\xac"
     if kind == "sep":
@@ -34,7 +37,7 @@ def gen_cases(ctx, flags, n_random, n_sign):
     r = ctx.rnd
     S, N = ctx.shard, ctx.nshards
     k = 0
-    kinds = ["empty", "one", 252, 253, 65535, 65536, "p2pkh", "sep", "sep", "grammar", "grammar"]
+    kinds = ["empty", "one", 252, 253, 65535, 65536, "p2pkh", "sep", "sep", "grammar", "grammar", "after_return"]
     # systematic: shapes x every index x every flag
     shapes = [(1, 0), (1, 1), (1, 2), (2, 1), (2, 2), (3, 1), (3, 3), (2, 5), (5, 2), (8, 8), (4, 0)]
     for ni, no in shapes:
@@ -78,8 +81,18 @@ def gen_cases(ctx, flags, n_random, n_sign):
         sub = mk_subscript(r, r.choice(kinds[:2] + kinds[6:])).hex()
         idx = r.randrange(ni)
         val = gen.u64(r)
+        # sometimes the transaction object also carries the extended fields (recorded value / locking script of the spent outputs):
+        # they are not arguments of the preimage and must not influence it
+        ext = None
+        if r.random() < 0.35:
+            ext = [({"satoshis": gen.u64(r), "locking": mk_subscript(r, r.choice(["p2pkh", "sep", "one"])).hex()} if r.random() < 0.8 else None) for _ in range(ni)]
+            if r.random() < 0.5:
+                sub = ""
         for f in (flags if r.random() < 0.5 else [r.choice(flags)]):
-            yield {"k": "pre", "tx": raw, "flag": f, "idx": idx, "script": sub, "value": val, "twice": r.random() < 0.3}
+            c_ = {"k": "pre", "tx": raw, "flag": f, "idx": idx, "script": sub, "value": val, "twice": r.random() < 0.3}
+            if ext:
+                c_["ext"] = ext
+            yield c_
     keys = [1, 2, 3, (ec.N - 1) // 2, (ec.N + 1) // 2, ec.N - 2, ec.N - 1]
     for _ in range(n_sign):
         ni = r.choice([1, 2, 3])
@@ -96,6 +109,7 @@ def gen_cases(ctx, flags, n_random, n_sign):
             "key": key.to_bytes(32, "big").hex(),
             "compressed": r.random() < 0.5,
             "nonce": (r.choice([1, 2, ec.N - 1]) if r.random() < 0.2 else r.randrange(1, ec.N)).to_bytes(32, "big").hex() if r.random() < 0.35 else None,
+            "ext": ([{"satoshis": gen.u64(r), "locking": mk_subscript(r, "p2pkh").hex()} for _ in range(ni)] if r.random() < 0.4 else None),
         }
 
 
@@ -124,7 +138,11 @@ def judge(ctx, case, forkid):
         ctx.hit("single_without_output")
     name = "FORKID" if forkid else "legacy"
     if case["k"] == "pre":
-        r = ctx.call({"op": "sighash", "tx": case["tx"], "flag": flag, "idx": idx, "script": case["script"], "value": val, "twice": case.get("twice", False)})
+        rq = {"op": "sighash", "tx": case["tx"], "flag": flag, "idx": idx, "script": case["script"], "value": val, "twice": case.get("twice", False)}
+        if case.get("ext"):
+            rq["ext"] = case["ext"]
+            ctx.hit("with_extended_fields")
+        r = ctx.call(rq)
         ctx.ev()
         if oob:
             if "err" in r:
@@ -151,6 +169,9 @@ def judge(ctx, case, forkid):
         if case.get("nonce"):
             sreq["k"] = case["nonce"]
             ctx.hit("sign_with_k")
+        if case.get("ext"):
+            sreq["ext"] = case["ext"]
+            ctx.hit("with_extended_fields")
         r = ctx.call(sreq)
         ctx.ev()
         ctx.hit("sign")
